@@ -1,8 +1,8 @@
 package main
 
 import (
-	"go/token"
 	"fmt"
+	"go/token"
 	"go/types"
 	"strings"
 
@@ -11,15 +11,15 @@ import (
 
 func init() {
 	register(&Property{
-		ID:        "C09",
-		Title:     "Integrity check: sound, complete, read-only in check mode, convergent in fix",
-		Technique: "static analysis: may-write-bolt effect summaries over the call graph + SSA dominance by the `fix` guard for every write reachable from each CheckIntegrity; must-follow rule pairing every repair with a report; full-range fan-out and two-direction scan shape checks",
-		LevelText: "Decides for every path of every CheckIntegrity implementation (and everything it can reach through the repository's call graph) that no bolt write (including get-or-create bucket accessors) can execute unless the `fix` parameter is true; that every repair site is followed by an errorSink report before the next iteration/return and that the reported `fixed` flag is false or implied by `fix`; that the store-level check visits every link collection and every constraint; and that each index checker scans both directions. It does NOT decide completeness on arbitrary corruption sets or one-pass convergence of fix mode (data dependent).",
-		LevelNote: "Trusted: go/types, x/tools SSA, the name-and-shape CHA used for interface dispatch (over-approximates callees: sound for may-write), bbolt primitives list in checker/effects.go. Calls through caller-supplied function values (errorSink, external symbols) are assumed effect-free.",
-		DesignRef: "DESIGN.md C09",
+		ID:          "C09",
+		Title:       "Integrity check: sound, complete, read-only in check mode, convergent in fix",
+		Technique:   "static analysis: may-write-bolt effect summaries over the call graph + SSA dominance by the `fix` guard for every write reachable from each CheckIntegrity; must-follow rule pairing every repair with a report; full-range fan-out and two-direction scan shape checks",
+		LevelText:   "Decides for every path of every CheckIntegrity implementation (and everything it can reach through the repository's call graph) that no bolt write (including get-or-create bucket accessors) can execute unless the `fix` parameter is true; that every repair site is followed by an errorSink report before the next iteration/return and that the reported `fixed` flag is false or implied by `fix`; that the store-level check visits every link collection and every constraint; and that each index checker scans both directions. It does NOT decide completeness on arbitrary corruption sets or one-pass convergence of fix mode (data dependent).",
+		LevelNote:   "Trusted: go/types, x/tools SSA, the name-and-shape CHA used for interface dispatch (over-approximates callees: sound for may-write), bbolt primitives list in checker/effects.go. Calls through caller-supplied function values (errorSink, external symbols) are assumed effect-free.",
+		DesignRef:   "DESIGN.md C09",
 		Explanation: "Sites: all implementers of Checkable.CheckIntegrity in boltz. For each, every call instruction whose callee may (transitively, via static calls, closures and interface dispatch resolved over the repository) reach a bbolt write primitive is an obligation discharged only by the branch fact fix==true (through && chains and derived flags such as tryFix) or by iterating a collection whose every append is so guarded.",
-		Trusted:   []string{"go/types", "golang.org/x/tools/go/ssa v0.29.0", "bbolt write-primitive list (checker/effects.go)", "caller-supplied callbacks assumed effect-free"},
-		Rules:     rulesC09,
+		Trusted:     []string{"go/types", "golang.org/x/tools/go/ssa v0.29.0", "bbolt write-primitive list (checker/effects.go)", "caller-supplied callbacks assumed effect-free"},
+		Rules:       rulesC09,
 		Controls: []controlExpect{
 			{"C09.READONLY", "zzControlBadC09", true},
 			{"C09.READONLY", "zzControlGoodC09", false},
@@ -141,6 +141,13 @@ func rulesC09(c *Ctx) {
 					continue
 				}
 			}
+			// helper that receives the fix flag: decided inside the helper (one level of inlining per call,
+			// depth-bounded), so extracting a guarded repair into a function does not change the verdict
+			if ok, why := helperGuardsWrites(p, cg, sum, isW, w.in, ci.fix, fi, 0); ok {
+				c.OK("C09.READONLY", construct, p.Pos(w.in.Pos()), why)
+				c.OK("C09.REPORT", construct, p.Pos(w.in.Pos()), "repair delegated to a helper that receives the fix flag")
+				continue
+			}
 			c.Bad("C09.READONLY", construct, p.Pos(w.in.Pos()),
 				"a call that may write to the database ("+w.chain+") is not dominated by the fix guard; facts here: "+fi.Describe(w.in.Block()))
 		}
@@ -169,6 +176,7 @@ func rulesC09(c *Ctx) {
 	c.Floor("C09.REPORT", 20)
 	ruleC09Fanout(c, cg, sum)
 	ruleC09TwoWay(c, impls)
+	ruleC09Recheck(c, impls)
 	ruleC09Phases(c, cg, impls)
 	ruleReseek(c, "C09.RESEEK", c.prodFuncs("boltz"))
 }
@@ -538,4 +546,172 @@ func ruleReseek(c *Ctx, rule string, fns []*ssa.Function) {
 		}
 	}
 	c.OK(rule, "boltz cursor loops", "-", fmt.Sprintf("%d loop(s) advancing a cursor with Next() examined", n))
+}
+
+// helperGuardsWrites: the call passes a value implied by `fix` to a bool parameter of a repository
+// function in which every may-write call is dominated by that parameter being true.
+func helperGuardsWrites(p *Prog, cg *CG, sum *Summary, isW func(ssa.Instruction) bool, call ssa.CallInstruction, fix ssa.Value, fi *FactInfo, depth int) (bool, string) {
+	if depth > 2 {
+		return false, ""
+	}
+	ts := cg.CalleesOf(call.Common())
+	if len(ts) != 1 || call.Common().IsInvoke() {
+		return false, ""
+	}
+	callee := ts[0]
+	args := call.Common().Args
+	for i, prm := range callee.Params {
+		if i >= len(args) || !types.Identical(prm.Type(), types.Typ[types.Bool]) {
+			continue
+		}
+		a := args[i]
+		if a != fix && !fi.implied(a, true)[Fact{"true", fix, true}] {
+			continue
+		}
+		cfi := ComputeFacts(callee)
+		want := Fact{"true", prm, true}
+		all := true
+		n := 0
+		for _, k := range callsIn(callee) {
+			may := isW(k)
+			if !may {
+				may, _ = sum.CallMay(k.Common())
+			}
+			if !may {
+				continue
+			}
+			n++
+			if cfi.Holds(k.Block(), want) {
+				continue
+			}
+			if ok, _ := helperGuardsWrites(p, cg, sum, isW, k, prm, cfi, depth+1); ok {
+				continue
+			}
+			all = false
+		}
+		if all && n > 0 {
+			return true, fmt.Sprintf("delegates to %s, passing the fix flag; all %d write(s) inside it are dominated by that parameter", FnName(callee), n)
+		}
+	}
+	return false, ""
+}
+
+// ruleC09Recheck: in the index -> entity direction an index entry (read from a bolt cursor) is
+// validated by re-evaluating the indexed symbol on the referenced entity.  The recomputed value must
+// be tested on EVERY path before the scan moves on: a path that skips the comparison (for any reason
+// that does not itself depend on the recomputed value) lets a stale entry go unreported.
+func ruleC09Recheck(c *Ctx, impls []checkIntegrityImpl) {
+	p := c.P
+	boltCursor := map[*types.Func]bool{}
+	for _, m := range []string{"First", "Next", "Seek", "Last", "Prev"} {
+		boltCursor[p.ExtMethod(bboltPath, "Cursor", m)] = true
+	}
+	var fromIndex func(v ssa.Value, seen map[ssa.Value]bool) bool
+	fromIndex = func(v ssa.Value, seen map[ssa.Value]bool) bool {
+		if v == nil || seen[v] {
+			return false
+		}
+		seen[v] = true
+		switch x := v.(type) {
+		case *ssa.Extract:
+			return fromIndex(x.Tuple, seen)
+		case *ssa.Phi:
+			for _, e := range x.Edges {
+				if fromIndex(e, seen) {
+					return true
+				}
+			}
+		case *ssa.Slice:
+			return fromIndex(x.X, seen)
+		case *ssa.Convert:
+			return fromIndex(x.X, seen)
+		case *ssa.ChangeType:
+			return fromIndex(x.X, seen)
+		case *ssa.Call:
+			cal, _ := calleeOf(x.Common())
+			if cal == nil {
+				return false
+			}
+			if boltCursor[cal] {
+				return true
+			}
+			if cal.Name() == "GetTypeAndValue" {
+				for _, a := range x.Call.Args {
+					if fromIndex(a, seen) {
+						return true
+					}
+				}
+			}
+		}
+		return false
+	}
+	var dependsOn func(v ssa.Value, src map[ssa.Value]bool, depth int) bool
+	dependsOn = func(v ssa.Value, src map[ssa.Value]bool, depth int) bool {
+		if v == nil || depth > 8 {
+			return false
+		}
+		if src[v] {
+			return true
+		}
+		in, ok := v.(ssa.Instruction)
+		if !ok {
+			return false
+		}
+		for _, op := range in.Operands(nil) {
+			if op != nil && *op != nil && dependsOn(*op, src, depth+1) {
+				return true
+			}
+		}
+		return false
+	}
+	n := 0
+	for _, ci := range impls {
+		fn := ci.fn
+		loops := loopsOf(fn)
+		for _, call := range callsIn(fn) {
+			cc := call.Common()
+			if !cc.IsInvoke() || cc.Method.Name() != "Eval" || len(cc.Args) != 2 {
+				continue
+			}
+			cv, ok := call.(*ssa.Call)
+			if !ok || !fromIndex(cc.Args[1], map[ssa.Value]bool{}) {
+				continue
+			}
+			n++
+			construct := FnName(fn) + ": re-evaluation " + describeInstr(call)
+			src := map[ssa.Value]bool{}
+			for _, r := range *cv.Referrers() {
+				if ex, ok := r.(*ssa.Extract); ok && ex.Index == 1 {
+					src[ex] = true
+				}
+			}
+			if len(src) == 0 {
+				c.Bad("C09.RECHECK", construct, p.Pos(call.Pos()), "the value recomputed from the referenced entity is discarded: the index entry is never compared with it")
+				continue
+			}
+			tests := func(in ssa.Instruction) bool {
+				iff, ok := in.(*ssa.If)
+				return ok && dependsOn(iff.Cond, src, 0)
+			}
+			ri := reachWithoutFrom(fn, call, tests)
+			escape := ""
+			if l := innermostLoop(loops, call.Block()); l != nil {
+				// leaving the iteration: the header again, or any block outside the loop
+				for _, b := range fn.Blocks {
+					if (b == l.Header || !l.Blocks[b]) && len(b.Instrs) > 0 && ri.entryReach[b] {
+						escape = "the next iteration / loop exit at " + p.Pos(lastPos(b))
+						break
+					}
+				}
+			} else {
+				for _, r := range returnsOf(fn) {
+					if ri.Reaches(r) {
+						escape = "the return at " + p.Pos(r.Pos())
+					}
+				}
+			}
+			c.Check(escape == "", "C09.RECHECK", construct, p.Pos(call.Pos()), "every path from the re-evaluation tests the recomputed value before the scan moves on", "a path from the re-evaluation reaches "+escape+" without any test of the recomputed value: a stale index entry on that path is neither reported nor repaired")
+		}
+	}
+	c.Floor("C09.RECHECK", 3)
 }
